@@ -188,6 +188,25 @@ fn word(rng: &mut Rng) -> &'static str {
 
 struct Emit<'r> {
     rng: &'r mut Rng,
+    /// write some characters of object keys as \\uXXXX escapes (legal JSON, same document)
+    escape_keys: bool,
+}
+
+/// A JSON string literal for `k` with roughly every third ASCII letter escaped as \\u00XX.
+fn jstr_escaped(k: &str, rng: &mut Rng) -> String {
+    let mut out = String::from("\"");
+    for ch in k.chars() {
+        if ch.is_ascii_alphabetic() && rng.chance(1, 3) {
+            out.push_str(&format!("\\u{:04x}", ch as u32));
+        } else if ch == '"' || ch == '\\' {
+            out.push('\\');
+            out.push(ch);
+        } else {
+            out.push(ch);
+        }
+    }
+    out.push('"');
+    out
 }
 
 impl Emit<'_> {
@@ -534,7 +553,12 @@ impl Emit<'_> {
             if i > 0 {
                 s.push_str(sep);
             }
-            s.push_str(&jstr(k));
+            if self.escape_keys {
+                let lit = jstr_escaped(k, &mut *self.rng);
+                s.push_str(&lit);
+            } else {
+                s.push_str(&jstr(k));
+            }
             s.push_str(colon);
             s.push_str(v);
         }
@@ -544,7 +568,8 @@ impl Emit<'_> {
 }
 
 pub fn synth(rng: &mut Rng, kind: DocKind) -> Doc {
-    let mut e = Emit { rng };
+    let escape_keys = rng.chance(1, 12);
+    let mut e = Emit { rng, escape_keys };
     let mut text = match kind {
         DocKind::SynthRegular => e.regular(0, false),
         DocKind::SynthHermes => e.regular(0, true),
